@@ -437,8 +437,8 @@ theorem outcome_block_lines {isOther : Char → Bool} (hC : AsciiContract isOthe
           Passes ⟨⟨u.test.cfg, newExps, writtenExpected r.code⟩, u.cmd, newOrigs⟩ r) ∧
       t.command = c0 :: more ∧
       splitLines g = (('$' :: ' ' :: c0) :: more.map contLine) ++ afterLines newOrigs r.code ∧
-      (∀ o ∈ newOrigs, extractExitCode o = none) := by
-  obtain ⟨c0, more, after, hcode, _, h1, h2, _, _, _, _⟩ := hb
+      (∀ o ∈ newOrigs, isExitCodeForm o = false) := by
+  obtain ⟨c0, more, after, hcode, _, h1, h2, _, _, hform, _⟩ := hb
   obtain ⟨_, hucmd, huorigs, _⟩ := prepareU_compiled hu
   obtain ⟨ex, newOrigs, hex, hg, hno, hpass⟩ := outcome_full hC ho
   -- the command lines
@@ -493,8 +493,7 @@ theorem outcome_block_lines {isOther : Char → Bool} (hC : AsciiContract isOthe
   intro o ho'
   rcases hno o ho' with hin | ⟨l, hl, hgen⟩
   · rw [huorigs, h2] at hin
-    have := (List.mem_filter.mp hin).2
-    simpa using this
+    exact (hform o hin).2
   · obtain ⟨t0, ht0, hok⟩ := line_ok grammarParams_std .unicode isOther (fun _ => hC) hl
     rw [hgen] at ht0
     cases ht0
@@ -520,7 +519,7 @@ theorem reparse_block {isOther : Char → Bool} (hC : AsciiContract isOther) {ex
           Passes ⟨⟨u.test.cfg, newExps, writtenExpected r.code⟩, u.cmd, newOrigs⟩ r) ∧
       t'.command = t.command ∧ t'.expectations = expLines (afterLines newOrigs r.code) ∧
       t'.exitCode = (exitCodes (afterLines newOrigs r.code)).head? ∧ t'.config = some (cfgOf cfg') ∧
-      (∀ o ∈ newOrigs, extractExitCode o = none) := by
+      (∀ o ∈ newOrigs, isExitCodeForm o = false) := by
   obtain ⟨ex, newOrigs, c0, more, hex, hg, hpass, h1, hsplit, hnoexit⟩ := outcome_block_lines hC hb hclean hu ho
   have hnot : NotCont (afterLines newOrigs r.code) := afterLines_notCont newOrigs r.code
   rw [hsplit] at hb'
@@ -747,8 +746,8 @@ theorem run_idempotent_readback {isOther : Char → Bool} (hC : AsciiContract is
     obtain ⟨ex, newOrigs, hex, hg, hpass, c1, c2, c3, _, c5⟩ :=
       reparse_block hC ha.block ha.clean ha.prepared ha.outcome ha.block'
     obtain ⟨hcode0, hcode1⟩ := hcodes r (List.mem_of_getElem? ha.run)
-    rw [expLines_afterLines newOrigs c5 r.code hcode0 hcode1] at c2
-    rw [exitCodes_afterLines newOrigs c5 r.code hcode0 hcode1] at c3
+    rw [expLines_afterLines newOrigs (fun o h => extractExitCode_of_not_form (c5 o h)) r.code hcode0 hcode1] at c2
+    rw [exitCodes_afterLines newOrigs (fun o h => extractExitCode_of_not_form (c5 o h)) r.code hcode0 hcode1] at c3
     -- the original test
     obtain ⟨uu, huu, hpu⟩ := hprep.get j t ha.test
     rw [ha.prepared] at hpu
